@@ -16,7 +16,8 @@ struct FwA {
 #define TYPES_A(X) X(int8_t) X(int16_t) X(int32_t) X(int64_t) X(uint8_t) X(uint16_t) X(uint32_t) X(uint64_t) X(float) X(double) X(std::string) \
     X(std::vector<int32_t>) X(std::vector<uint8_t>) X(std::vector<double>) X(VS) X(std::vector<std::vector<uint8_t>>) X(std::vector<std::vector<std::string>>) \
     X(std::pair<int32_t COMMA std::string>) X(std::pair<std::string COMMA std::vector<int16_t>>) X(std::tuple<int8_t COMMA std::string COMMA double>) X(std::tuple<std::vector<uint16_t> COMMA std::pair<uint8_t COMMA uint8_t>>) \
-    X(std::map<std::string COMMA int32_t>) X(std::map<int32_t COMMA VS>) X(std::map<uint8_t COMMA std::map<uint8_t COMMA std::string>>) X(PtA) X(NestA) X(std::vector<PtA>) X(std::map<std::string COMMA NestA>) X(OwnA) X(std::vector<OwnA>) X(std::map<uint8_t COMMA OwnA>) X(std::vector<NestA>)
+    X(std::map<std::string COMMA int32_t>) X(std::map<int32_t COMMA VS>) X(std::map<uint8_t COMMA std::map<uint8_t COMMA std::string>>) X(PtA) X(NestA) X(std::vector<PtA>) X(std::map<std::string COMMA NestA>) X(OwnA) X(std::vector<OwnA>) X(std::map<uint8_t COMMA OwnA>) X(std::vector<NestA>) \
+    X(std::pair<uint8_t COMMA uint32_t>) X(std::map<uint8_t COMMA uint32_t>) X(std::map<int32_t COMMA double>) X(std::pair<int64_t COMMA int32_t>) X(std::vector<std::pair<uint16_t COMMA int64_t>>) X(std::tuple<uint8_t COMMA uint64_t COMMA uint16_t>)
 void ser_b(int idx);
 static void ser_a(int idx) {
     int k = 0;
